@@ -69,6 +69,7 @@ var properties = map[string][]harnessSpec{
 		{Name: "input/ast.VerifC04Parser", Quick: map[string]int{"C04.maxTokens": 8}, Thorough: map[string]int{"C04.maxTokens": 10}, Marks: []string{"end", "accepted", "rejected", "bad-token"}},
 		{Name: "input/ast.VerifC04ScanToken", Quick: map[string]int{"C04.window": 5}, Thorough: map[string]int{"C04.window": 6}, Marks: []string{"end", "token", "eof"}, MustTerminate: true},
 		{Name: "input/ast.VerifC04ScanToken", Quick: map[string]int{"C04.window": 3, "C04.wide": 1}, Thorough: map[string]int{"C04.window": 4, "C04.wide": 1}, Marks: []string{"end", "token", "eof"}, MustTerminate: true},
+		{Name: "input/ast.VerifC04Sentences", Quick: map[string]int{"C04.sentenceElements": 2}, Thorough: map[string]int{"C04.sentenceElements": 3}, Marks: end},
 		{Name: "input/ast.VerifC04ParseRunes", Quick: map[string]int{"C04.runes": 4}, Thorough: map[string]int{"C04.runes": 5}, Marks: []string{"end", "accepted", "rejected"}, MustTerminate: true},
 	},
 	"C09": {
@@ -123,6 +124,7 @@ var properties = map[string][]harnessSpec{
 		{Name: "cmd.VerifC12KeyListOutput", Marks: end},
 		{Name: "chord.VerifC12BuildOrder", Marks: end},
 		{Name: "cmd.VerifC12IOPaths", Marks: []string{"end", "failed", "printed"}},
+		{Name: "cmd.VerifC12LongInput", Quick: map[string]int{"C12.longChords": 140}, Thorough: map[string]int{"C12.longChords": 600}, Marks: end},
 		{Name: "cmd.VerifC12DebugFlag", Marks: []string{"end", "failed"}},
 		{Name: "astconv.VerifC05Classifier", Quick: map[string]int{"C05.maxChords": 2, "C05.preemptions": 1}, Thorough: map[string]int{"C05.maxChords": 3, "C05.preemptions": 2}, Marks: []string{"end", "classified", "refused"}},
 		{Name: "op.VerifC14Chain", Quick: map[string]int{"C14.maxLen": 2}, Thorough: map[string]int{"C14.maxLen": 3}, Marks: end},
